@@ -399,3 +399,34 @@ Fixpoint mo_run (prio : list (list Q) -> list Q) (rf max_t : Q) (modes : list mo
       let r := mo_run prio rf max_t modes (fst s) rest in
       (fst r, snd s :: snd r)
   end.
+
+(* ---- reporting layer: util.metric_name_mode + Tuner.best_config / print_best_metric_found --------------------
+   scheduler.metric_mode() is the constructor's mode argument: one mode for all metrics or one per metric;
+   Tuner.best_config(metric = i) resolves the mode OF METRIC i and ranks the trials by their best value of metric i *)
+Inductive mode_spec := MStr (m : mode) | MList (l : list mode).
+
+(* metric_name_mode: if isinstance(metric_mode, list): metric_mode = metric_mode[metric_index] *)
+Definition resolve_mode (ms : mode_spec) (i : nat) : option mode :=
+  match ms with MStr m => Some m | MList l => nth_error l i end.
+
+(* [table]: per trial (dict order of TuningStatus) the reported metric vectors; column i = values of metric i *)
+Definition metric_column (i : nat) (table : list (Z * list (list Q))) : list (Z * list Q) :=
+  map (fun tl => (fst tl, map (fun row => nth i row 0) (snd tl))) table.
+
+Definition tuner_best_config (ms : mode_spec) (i : nat) (table : list (Z * list (list Q))) : option (Z * option Q) :=
+  match resolve_mode ms i with
+  | None => None                      (* IndexError *)
+  | Some md => best_metric_found md (metric_column i table)
+  end.
+
+(* ---- RUSH candidate selection: TransferLearningTaskEvaluations.top_k_hyperparameter_configurations ------------
+   per configuration of a previous task its evaluations as fidelities x seeds; mean over the seeds, then the BEST
+   fidelity value under the mode (min / max over axis 1), argsort ascending, reversed for mode max, first k.
+   (numpy's argsort order among equal values is unspecified; the model sorts stably) *)
+Definition tl_reduced (md : mode) (ev : list (list Q)) : Q :=
+  match agg md (map qmean ev) with Some v => v | None => 0 end.
+
+Definition tl_topk (md : mode) (k : nat) (evs : list (Z * list (list Q))) : list Z :=
+  let keyed := map (fun e => (fst e, tl_reduced md (snd e))) evs in
+  let asc := stable_sort (fun y x => Qltb (snd y) (snd x)) keyed in
+  firstn k (map fst (match md with Min => asc | Max => rev asc end)).
